@@ -154,6 +154,36 @@ class ModuleInfo:
             if k.startswith(pre) and "." not in k[len(pre):]
         }
 
+    def canonical_view(self, qualname: str, mapping: dict[str, str]) -> "FuncInfo":
+        """the function `qualname` with LOCAL names renamed (actual -> canonical) - same layout, same line numbers.
+        Used after roles have been resolved by dataflow, so that rules can be phrased over role names whatever the
+        locals are called today.  Only NAME tokens inside the function's own line span are touched; attribute names
+        (after a dot) and keyword-argument names are left alone."""
+        mapping = {a: c for a, c in mapping.items() if a and a != c}
+        f = self.func(qualname)
+        if not mapping:
+            return f
+        import io
+        import tokenize
+        lo, hi = f.node.lineno, f.node.end_lineno
+        toks = list(tokenize.generate_tokens(io.StringIO(self.source).readline))
+        lines = self.source.splitlines(keepends=True)
+        edits = []
+        for i, t in enumerate(toks):
+            if t.type == tokenize.NAME and lo <= t.start[0] <= hi and t.string in mapping:
+                prev = toks[i - 1] if i else None
+                nxt = toks[i + 1] if i + 1 < len(toks) else None
+                if prev is not None and prev.type == tokenize.OP and prev.string == ".":
+                    continue
+                if nxt is not None and nxt.type == tokenize.OP and nxt.string == "=" and prev is not None and prev.type == tokenize.OP and prev.string in ("(", ","):
+                    continue  # keyword argument name
+                edits.append((t.start, t.end, mapping[t.string]))
+        for (r, c0), (_r2, c1), new in sorted(edits, reverse=True):
+            ln = lines[r - 1]
+            lines[r - 1] = ln[:c0] + new + ln[c1:]
+        m2 = ModuleInfo(self.rel, "".join(lines))
+        return m2.func(qualname)
+
     def line(self, lineno: int) -> str:
         lines = self.source.splitlines()
         return lines[lineno - 1] if 0 < lineno <= len(lines) else ""
